@@ -202,6 +202,16 @@ CHECKS['C15'] = dict(
     design_ref='DESIGN.md section 4, C15', note=BOUNDED_NOTE + '; lxml contracts assumed; refuted or undecided obligations are replayed on the real code (bounded/view_replay.py)',
     technique='contract-based deductive verification of the Jigg span writer (PyVC, structural induction via recursive-call contracts, lemmas over the spec function); bounded run-time contract for readers and round trips',
 )
+CHECKS['C08'] = dict(
+    category='exploration',
+    text=('Deductive part (PyVC on the real auto.py and tools/reader.py): printer and reader are proved against one token-level specification toks(t) of the AUTO text. auto_of.rec returns text whose '
+          'blank-separated pieces are toks(node); _AutoLineReader.parse_leaf / parse_tree (next_node inlined), given the pieces toks(t) at the cursor, return a tree iso to t (shape, category text, head flags, POS, '
+          'escaped word) and leave the cursor behind them; recursive calls are replaced by the contracts (structural induction). Lemmas: the real body of next() returns a blank-free piece followed by a blank and '
+          'skips the blank (z3/cvc5 strings); iso trees have the same pieces, so re-printing reproduces the line. The cursor methods are used through an assumed token-level abstraction justified by next-lemma. '
+          'The conll fragment clause, escapes and the file-level reader are decided BOUNDED on the real code.'),
+    design_ref='DESIGN.md section 4, C08', note=BOUNDED_NOTE + '; token-level abstraction of the cursor assumed (next-lemma proved); refuted or undecided obligations are replayed on the real code (bounded/view_replay.py)',
+    technique='contract-based deductive verification of the AUTO printer and reader against a common token-level spec (PyVC, structural induction via recursive-call contracts, string lemma by z3/cvc5); bounded run-time contract for the rest',
+)
 
 NA_REASON = {}
 
@@ -233,7 +243,7 @@ def main():
                            'parsing.h with g++ themselves (vc/harness.py) and set DEPCCG_VERIF=1 for the bounded C01 run; the deductive obligations do not use it'),
                    baseline_off_cmd='cd /repo && env -u DEPCCG_VERIF /venv/bin/python -m pytest -ra -q -p no:cacheprovider --timeout=900 --continue-on-collection-errors',
                    source_commits=['0b0a8cf'], add_only=True),
-        engines=[dict(name='pyvc', path='/verif/vc/pyvc.py', serves_properties=['C03', 'C04', 'C05', 'C06', 'C07', 'C11', 'C12', 'C13', 'C14', 'C15', 'C17'],
+        engines=[dict(name='pyvc', path='/verif/vc/pyvc.py', serves_properties=['C03', 'C04', 'C05', 'C06', 'C07', 'C08', 'C11', 'C12', 'C13', 'C14', 'C15', 'C17'],
                       kind_free_text='verification-condition generator (symbolic execution of the python ast of the real source, sidecar contracts in /verif/contracts) + z3/cvc5'),
                  dict(name='cxxvc', path='/verif/vc/cxxvc.py', serves_properties=['C01', 'C02', 'C09', 'C10', 'C11', 'C12', 'C16'],
                       kind_free_text='verification-condition generator over clang\'s JSON AST of depccg/parsing.h (invariant rule over the search loop) + z3/cvc5'),
